@@ -156,3 +156,30 @@ Proof.
     replace (Datatypes.S i * length it1 + j - length it1) with (i * length it1 + j) by (simpl; lia).
     simpl in Hi. rewrite IH by lia. reflexivity.
 Qed.
+
+(** * every access site of the parent in the non-const 2-D view class (all five assignment operators,
+    every right-hand-side kind, with FASTOR_USE_VECTORISED_EXPR_ASSIGN), as translated: a contiguous vector
+    address is used only in the `_seq1._step == 1` branch and is (f0+i*s0)*N + f1 + j; a scattered store is
+    at (f0+i*s0)*N + f1 + j*s1 with stride s1; a scalar access is at row f0+i*s0 and column f1+j*s1 (f1+j in
+    the unit-step branch) - the offsets of [view_write] (Model/Views.v) *)
+Local Open Scope Z_scope.
+Definition site_ok (f0 s0 f1 s1 N i j : Z) (site : nat * bool * Z * Z) : Prop :=
+  let '(kind, unit_step, e1, e2) := site in
+  match kind with
+  | 0%nat => unit_step = true /\ e1 = (f0 + i * s0) * N + (f1 + j)
+  | 1%nat => e1 = (f0 + i * s0) * N + (f1 + j * s1) /\ e2 = s1
+  | _ => e1 = f0 + i * s0 /\ (e2 = f1 + j * s1 \/ (unit_step = true /\ e2 = f1 + j))
+  end.
+Lemma gen_view2d_write_sites_ok f0 s0 f1 s1 N i j :
+  Forall (site_ok f0 s0 f1 s1 N i j) (gen_view2d_write_sites f0 s0 f1 s1 N i j) /\
+  (40 <= length (gen_view2d_write_sites f0 s0 f1 s1 N i j))%nat.
+Proof.
+  split; [|unfold gen_view2d_write_sites; simpl; lia].
+  unfold gen_view2d_write_sites.
+  repeat (apply Forall_cons; [unfold site_ok; first [ split; [reflexivity | ring]
+                                                    | split; [ring | reflexivity]
+                                                    | split; [ring | left; ring]
+                                                    | split; [ring | right; split; [reflexivity | ring]] ] |]).
+  apply Forall_nil.
+Qed.
+Local Close Scope Z_scope.
